@@ -41,11 +41,10 @@ pub fn leave_run() {
     IN_RUN.with(|x| x.set(false));
 }
 
-#[cold]
-fn bomb(size: usize) -> ! {
+/// Report a violation that cannot be handled inside the run (the process has to stop where it is): write a replay
+/// file that regenerates the run from its seed, print the VIOLATION line and exit with the violation status.
+pub fn fatal_violation(d: &RunDesc, clause: &str, detail: &str) -> ! {
     IN_RUN.with(|x| x.set(false));
-    let d = DESC.with(|x| x.borrow().clone());
-    let Some(d) = d else { std::process::abort() };
     let dir = format!("{}/replays", d.verif_dir);
     let _ = std::fs::create_dir_all(&dir);
     let path = format!("{dir}/{}-{}.json", d.property, d.seed);
@@ -53,17 +52,25 @@ fn bomb(size: usize) -> ! {
         Some(c) => format!("[{}]", c.iter().map(|x| x.to_string()).collect::<Vec<_>>().join(",")),
         None => "null".to_string(),
     };
-    let detail = format!("the code under test requested a single allocation of {size} bytes (>= {BOMB_BYTES}); a real process would be killed or would buffer that much for a peer");
     let rep = format!(
-        "{{\n \"property\": \"{}\",\n \"scenario\": \"{}\",\n \"seed\": {},\n \"profile\": \"{}\",\n \"tier\": \"{}\",\n \"clause\": \"alloc-bomb\",\n \"detail\": \"{}\",\n \"reproducible\": true,\n \"choices\": {},\n \"note\": \"choices null = the run is regenerated from its seed; the process stops at the allocation, so the sequence is not minimised\"\n}}\n",
-        d.property, d.scenario, d.seed, d.profile, d.tier, detail, choices
+        "{{\n \"property\": \"{}\",\n \"scenario\": \"{}\",\n \"seed\": {},\n \"profile\": \"{}\",\n \"tier\": \"{}\",\n \"clause\": \"{}\",\n \"detail\": \"{}\",\n \"reproducible\": true,\n \"choices\": {},\n \"note\": \"choices null = the run is regenerated from its seed; the process stops inside the run, so the sequence is not minimised\"\n}}\n",
+        d.property, d.scenario, d.seed, d.profile, d.tier, clause, detail.replace('"', "'"), choices
     );
     let _ = std::fs::write(&path, rep);
-    println!("run (scenario {} profile {} seed {}) violated: alloc-bomb — {}", d.scenario, d.profile, d.seed, detail);
+    println!("run (scenario {} profile {} seed {}) violated: {} — {}", d.scenario, d.profile, d.seed, clause, detail);
     println!("VIOLATION property={} replay={}", d.property, path);
     use std::io::Write;
     let _ = std::io::stdout().flush();
     std::process::exit(1)
+}
+
+#[cold]
+fn bomb(size: usize) -> ! {
+    IN_RUN.with(|x| x.set(false));
+    let d = DESC.with(|x| x.borrow().clone());
+    let Some(d) = d else { std::process::abort() };
+    let detail = format!("the code under test requested a single allocation of {size} bytes (>= {BOMB_BYTES}); a real process would be killed or would buffer that much for a peer");
+    fatal_violation(&d, "alloc-bomb", &detail)
 }
 
 unsafe impl GlobalAlloc for SimAlloc {
